@@ -152,6 +152,7 @@ def alist_lookup(ctx, lexpr):
         return repr(v)[:40]
 
     n = 0
+    undecided = []
     lookups = [("name", K, by_name, alist.Str(K))] + [("value", (kind, K), by_value, None) for kind in NAMEK]
     for lname, spec in lists.items():
         for mode, key, fn, karg in lookups:
@@ -180,5 +181,3 @@ def alist_lookup(ctx, lexpr):
     r.floor("cases", n)
     r.floor("decided", n - len(undecided))
 
-
-undecided = []
